@@ -1,0 +1,8 @@
+// +build !verif
+
+package fs
+
+// verifPoint is a no-op in normal builds (see verif_on.go).
+func verifPoint(kind, arg string) error {
+	return nil
+}
